@@ -598,6 +598,10 @@ func ScalarCase(t *rapid.T, label string) (*ref.SNode, []Probe) {
 				}
 			}
 			seen[it.Tok] = true
+			if it.Kind == ref.KString && rapid.IntRange(0, 3).Draw(t, label+"EnumRespell") == 0 {
+				// the same string written with escapes (inside the annotation)
+				it.Tok = Respell(t, it.Str, label+"EnumRS")
+			}
 			items = append(items, it)
 		}
 		ex := items[rapid.IntRange(0, len(items)-1).Draw(t, label+"EnumEx")]
